@@ -254,6 +254,17 @@ def check(ctx):
             if k2 != "ok" or type(v2) is not int or v2 != want2:
                 ctx.violation("in:" + t2, t2, str(want2), real_ans(k2, v2), "execute(%r)" % t2)
             cases.append(("arr in %s %s" % (num_canon(vx), " ".join(num_canon(y) for y in va.contents)), real_ans(k2, v2), t2))
+    # ------------------------------------------------------------ `in` over numbers and quantities in DIMENSIONLESS units (same dimension:
+    # 3 dozen == 36), in both directions, and as a condition
+    for text, want_txt in [("36 in {3 dozen}", "1"), ("3 dozen in {36, 5}", "1"), ("3 in {3 rad}", "1"), ("37 in {3 dozen}", "0"), ("2 hundred in {200}", "1"),
+                           ("16 b in {2 B}", "1"), ("8 in {1 B}", "1"), ("1 B in {8, 9}", "1"), ("{x : x in 30..40, (x) in {3 dozen, 1 hundred}}", "{36}"),
+                           ("36 in {5 dozen, 3 dozen}", "1"), ("1 thousand in {999, 1000}", "1"), ("1000 in {1 thousand, 2}", "1"), ("3 dozen in {35, 37}", "0"),
+                           ("1 m in {100 cm, 2 m}", "1"), ("1 km in {999 m, 1001 m}", "0")]:
+        r = R.execute(text)
+        w = R.execute(want_txt)
+        ctx.count(text, bucket="in/dimensionless")
+        if r["escaped"] or r["status"] != 0 or r["out"] != w["out"]:
+            ctx.violation("in:" + text, text, want_txt, r["out"].strip() or "status %s %s %s" % (r["status"], r["escaped"] or "", r["err"].strip()[:100]), "execute(%r)" % text)
     # ------------------------------------------------------------ conditions whose value is 0 or 1 of ANOTHER numeric kind
     # (a lazy combinatoric, a quotient of lazies, a product with a lazy zero, a variable holding one): "keeps the positions where
     # every condition is 1"; a lazy 3 is "not 0 or 1" and an error
